@@ -64,7 +64,7 @@ def run(tier):
         chk.violation("call outside the C11 Contract: %s" % str(ev)[:600], ev)
     n_eval += ncalls
     chk.cov["signatures"] = {"hand_listed": 18, "generated": ngen, "sig_machine_edges": len(sig_edges)}
-    chk.sample([e for e in sev if e["e"] == "call"][5])
+    chk.sample(([e for e in sev if e["e"] == "call"] + [{}] * 6)[5])
     # (c) trees on instances bound to different libraries
     t_vm = cc.trees(chk, wd, "vm", 3, 2, 5 if thorough else 4, False, True)
     t_nat = cc.trees(chk, wd, "native", 3, 2, 5 if thorough else 4, True, False)
